@@ -26,7 +26,7 @@ type FileSpec struct {
 type Op struct {
 	Op       string `json:"op"` // hold settle off on pf rel wait readprio readall bg
 	N        int    `json:"n,omitempty"`
-	Fault    string `json:"fault,omitempty"` // "" | fail | stall
+	Fault    string `json:"fault,omitempty"` // "" | fail | fail2 (fail right behind the rounded prefetch range) | stall
 	FailFrom int64  `json:"fail_from,omitempty"`
 	Intf     bool   `json:"intf,omitempty"`
 	Bad      bool   `json:"bad,omitempty"` // check: a mountpoint nobody mounted
@@ -69,15 +69,16 @@ type FileObs struct {
 }
 
 type OpOut struct {
-	Res     string     `json:"res"`
-	Reqs    [][2]int64 `json:"reqs,omitempty"`    // registry requests of the prefetch body, in arrival order
-	PfSize  int64      `json:"pf_size,omitempty"` // Info().PrefetchSize after the body
-	Keys    [][3]int64 `json:"keys,omitempty"`
-	HasKeys bool       `json:"has_keys,omitempty"`
-	Errs    int        `json:"errs,omitempty"`
-	Waited  bool       `json:"waited,omitempty"` // check: it took at least the prefetch timeout
-	Full    bool       `json:"full,omitempty"`   // check: the blob was fetched completely before the call
-	Grew    bool       `json:"grew,omitempty"`
+	Res      string     `json:"res"`
+	Reqs     [][2]int64 `json:"reqs,omitempty"`    // registry requests of the prefetch body, in arrival order
+	PfSize   int64      `json:"pf_size,omitempty"` // Info().PrefetchSize after the body
+	Keys     [][3]int64 `json:"keys,omitempty"`
+	HasKeys  bool       `json:"has_keys,omitempty"`
+	Errs     int        `json:"errs,omitempty"`
+	FailFrom int64      `json:"fail_from,omitempty"` // fail2: the offset the registry failed from
+	Waited   bool       `json:"waited,omitempty"`    // check: it took at least the prefetch timeout
+	Full     bool       `json:"full,omitempty"`      // check: the blob was fetched completely before the call
+	Grew     bool       `json:"grew,omitempty"`
 }
 
 type Obs struct {
@@ -222,7 +223,9 @@ func gen(r *hx.Rng, stores []string) Case {
 	c.SyncAdd = r.Chance(1, 3)
 	c.SkipVerify = r.Chance(1, 5)
 	c.Ops = genOps(r, &c)
-	if r.Chance(1, 3) {
+	if r.Chance(1, 8) {
+		genSecondPhase(r, &c)
+	} else if r.Chance(1, 3) {
 		genFS(r, &c)
 	} else if c.LM == "prefetch" && r.Chance(1, 10) {
 		// landmark offset <= async threshold < configured size: the threshold must be compared with the range that is
@@ -232,6 +235,54 @@ func gen(r *hx.Rng, stores []string) Case {
 		c.Ops = []Op{{Op: "pf", N: r.Range(1, 2), Fault: "stall"}, {Op: "wait", N: r.Range(1, 3)}, {Op: "rel"}, {Op: "wait"}, {Op: "readprio"}}
 	}
 	return c
+}
+
+// genSecondPhase: the prefetch fails in its SECOND phase. The registry serves the download of the (chunk-rounded) range
+// and fails everything behind it; without a landmark the configured size ends in the middle of a file, so decompressing
+// that file needs bytes behind the range and Prefetch fails after the download. Then the registry recovers, the
+// background fetch runs, the registry goes away and everything is read: the background fetch must not rely on anything
+// the failed prefetch "has done". (With a landmark nothing prioritized lies behind the range: the same script succeeds.)
+func genSecondPhase(r *hx.Rng, c *Case) {
+	if r.Chance(3, 4) {
+		c.LM, c.Prio = "none", nil
+	}
+	// incompressible contents: a file starts roughly where the sizes before it end
+	var regs []int
+	for i, f := range c.Files {
+		if f.Kind == "reg" {
+			regs = append(regs, i)
+		}
+	}
+	for len(regs) < 2 {
+		c.Files = append(c.Files, FileSpec{Name: fmt.Sprintf("y%d", len(regs)), Kind: "reg", Size: 0})
+		regs = append(regs, len(c.Files)-1)
+	}
+	for _, i := range regs {
+		if c.Files[i].Size < 9000 {
+			c.Files[i].Size = r.Range(9000, 40000)
+		}
+	}
+	c.BlobCS = []int64{700, 2000}[r.Intn(2)]
+	c.BlobPCS = []int64{0, c.BlobCS * 3}[r.Intn(2)]
+	k := r.Intn(len(regs))
+	start := 0
+	for _, i := range regs[:k] {
+		start += c.Files[i].Size + 600
+	}
+	c.PrefetchSize = int64(start + 600 + c.Files[regs[k]].Size/2)
+	c.AsyncSize = 0
+	if c.dirCache() {
+		c.SyncAdd = true
+	}
+	ops := []Op{{Op: "pf", N: r.Range(1, 2), Fault: "fail2"}}
+	if r.Bool() {
+		ops = append(ops, Op{Op: "wait"})
+	}
+	if r.Chance(1, 3) {
+		ops = append(ops, Op{Op: "pf"})
+	}
+	ops = append(ops, Op{Op: "bg", N: r.Range(1, 2), Intf: r.Chance(1, 4)}, Op{Op: "off"}, Op{Op: "readall", Buf: []int{0, 777, 4096}[r.Intn(3)]})
+	c.Ops = ops
 }
 
 // genFS turns the case into a filesystem-level one: the real fs.Mount (without the FUSE server) and fs.Check.
@@ -437,14 +488,26 @@ func coqKeys(xs [][3]int64) string {
 	return hx.CoqList(s)
 }
 
-func coqFault(o Op) string {
+func coqFault(o Op, out *OpOut) string {
 	switch o.Fault {
 	case "fail":
 		return fmt.Sprintf("(FFail %s)", hx.CoqZ(o.FailFrom))
+	case "fail2":
+		if out != nil {
+			return fmt.Sprintf("(FFail %s)", hx.CoqZ(out.FailFrom))
+		}
+		return "(FFail 0%Z)"
 	case "stall":
 		return "FStall"
 	}
 	return "FNone"
+}
+
+func outOf(obs *Obs, i int) *OpOut {
+	if i < len(obs.Outs) {
+		return &obs.Outs[i]
+	}
+	return nil
 }
 
 func coqRes(s string) string {
@@ -485,7 +548,7 @@ func coqCase(c *Case, obs *Obs) string {
 	for i, o := range c.Ops {
 		switch o.Op {
 		case "mount":
-			ops[i] = fmt.Sprintf("SMount %s %s %s", coqFault(o), hx.CoqBool(c.NoPrefetch), hx.CoqBool(c.NoBG))
+			ops[i] = fmt.Sprintf("SMount %s %s %s", coqFault(o, outOf(obs, i)), hx.CoqBool(c.NoPrefetch), hx.CoqBool(c.NoBG))
 			if i < len(obs.Outs) && (obs.Outs[i].Res == "ok" || obs.Outs[i].Res == "stalled") {
 				mounted = true
 			}
@@ -501,7 +564,7 @@ func coqCase(c *Case, obs *Obs) string {
 		case "on":
 			ops[i] = "SOn"
 		case "pf":
-			ops[i] = fmt.Sprintf("SPf %d %s", o.N, coqFault(o))
+			ops[i] = fmt.Sprintf("SPf %d %s", o.N, coqFault(o, outOf(obs, i)))
 		case "rel":
 			ops[i] = "SRel"
 		case "wait":
@@ -513,7 +576,7 @@ func coqCase(c *Case, obs *Obs) string {
 		case "readall":
 			ops[i] = "SReadAll"
 		case "bg":
-			ops[i] = fmt.Sprintf("SBg %d %s %s", o.N, coqFault(o), hx.CoqBool(o.Intf))
+			ops[i] = fmt.Sprintf("SBg %d %s %s", o.N, coqFault(o, outOf(obs, i)), hx.CoqBool(o.Intf))
 		default:
 			ops[i] = "SOn"
 		}
@@ -612,6 +675,9 @@ func Main(stores []string, factories map[string]StoreFactory) {
 			ctx.Count("op." + o.Op)
 			if o.Fault != "" {
 				ctx.Count("op." + o.Op + "." + o.Fault)
+			}
+			if o.Fault == "fail2" && obs.Outs[i].Res == "err" {
+				ctx.Count("result.pf.err.second-phase")
 			}
 			if o.Intf {
 				ctx.Count("op.bg.intf")
@@ -756,6 +822,16 @@ func corpus() []Case {
 	c = base()
 	c.FS, c.NoBG, c.NoPrefetch = true, true, true
 	c.Ops = []Op{{Op: "mount"}, {Op: "check"}, {Op: "readprio"}, {Op: "bg"}, {Op: "off"}, {Op: "readall"}}
+	out = append(out, c)
+	// prefetch fails in its second phase (no landmark, the configured size ends inside "a"): the registry serves the
+	// download and fails behind it; it recovers, the background fetch succeeds, and then everything must read offline
+	c = base()
+	c.LM, c.Prio, c.PrefetchSize, c.BlobCS = "none", nil, 22000, 2000
+	c.Ops = []Op{{Op: "pf", Fault: "fail2"}, {Op: "wait"}, {Op: "bg"}, {Op: "off"}, {Op: "readall"}}
+	out = append(out, c)
+	c = base()
+	c.LM, c.Prio, c.PrefetchSize, c.BlobCS, c.BlobPCS, c.FSCache, c.LRU, c.SyncAdd = "none", nil, 4000, 700, 2100, "dir", 2, true
+	c.Ops = []Op{{Op: "pf", N: 2, Fault: "fail2"}, {Op: "bg", N: 2}, {Op: "off"}, {Op: "readall", Buf: 777}}
 	out = append(out, c)
 	// registry failure during prefetch: waiting returns, later calls do not run the body again
 	c = base()
